@@ -4,10 +4,12 @@
       kind 1: the URL rule on one (CA, TestCA, useTestCA) triple with url.Parse /
               SubjectIsInternal oracle tables;
       kind 2: what a recording proxy saw when the directory was fetched for such a triple;
-      kind 3: one GetAccount call with a configured account key.
+      kind 3: one GetAccount call with a configured account key;
+      kind 4: a lock-step history of calls with a configured account key ([Account.KeyPem]),
+              followed by one more call that runs alone and without faults (the probe).
     [check_line] computes (a) model == implementation and (b) [spec_ok]: the statements of the
     theorems evaluated on the implementation's observations only. *)
-From CM Require Import Lib.Str Lib.Wire Gen.Consts Account.Model.
+From CM Require Import Lib.Str Lib.Wire Gen.Consts Account.Model Account.KeyPem.
 From Coq Require Import Arith.
 Open Scope nat_scope.
 
@@ -256,6 +258,131 @@ Definition url_spec (u : url_case) (obs : option str) : bool :=
 Definition contact_spec (cs : list (bool * bool)) : bool :=
   forallb (fun '(plain, internal) => negb plain || internal) cs.
 
+(* ------------------------------------------------------------------ kind 4: account-key histories *)
+
+Definition k_lookup := 11.   Definition k_list := 12.
+
+Definition fn (v : fval) : nat := match v with FNone => 0 | FMine => 1 | FOther => 2 end.
+Definition fv (n : nat) : fval := match n with 0 => FNone | 1 => FMine | _ => FOther end.
+
+Definition klabel_of (e : event) : option klabel :=
+  match e with
+  | EStart t c => Some (KStart t (Nat.eqb c 1))
+  | EOp t f _ _ _ => Some (KOp t f)
+  | ECrash t => Some (KCrash t)
+  | EReset _ => None
+  end.
+
+(** what the model expects thread t to do next: (kind, value observed / written) *)
+Definition kexpected (s : kstate) (t : ktid) (fault : bool) : option (nat * nat) :=
+  let nf (v : nat) := if fault then 0 else v in
+  match k_thr s t with
+  | KIdle | KDone _ => None
+  | KList => Some (k_list, nf (match k_reg s, k_key s with FNone, FNone => 0 | _, _ => 1 end))
+  | KFirstKey | KLoadKey _ => Some (k_loadkey, nf (fn (k_key s)))
+  | KLoadReg => Some (k_loadreg, nf (fn (k_reg s)))
+  | KLookup => Some (k_lookup, nf (if k_known s then 1 else 0))
+  | KStoreReg => Some (k_storereg, nf 1)
+  | KStoreKey => Some (k_storekey, nf 1)
+  | KRollback => Some (k_delreg, 0)
+  end.
+
+Definition kev_ok (s : kstate) (e : event) : bool :=
+  match e with
+  | EOp t f k _ v =>
+      match kexpected s t f with
+      | Some (k', v') => Nat.eqb k k' && Nat.eqb v v'
+      | None => false
+      end
+  | _ => true
+  end.
+
+Fixpoint kreplay (s : kstate) (evs : list event) : option (kstate * bool) :=
+  match evs with
+  | [] => Some (s, true)
+  | e :: r =>
+      match klabel_of e with
+      | None => None
+      | Some l =>
+          match kstep s l with
+          | Some s' => match kreplay s' r with
+                       | Some (s'', b) => Some (s'', kev_ok s e && b)
+                       | None => None
+                       end
+          | None => None
+          end
+      end
+  end.
+
+Record kcase := KCase {
+  kc_reg0 : nat; kc_key0 : nat; kc_known : bool;     (* storage and CA before the history *)
+  kc_evs : list event;                               (* the concurrent history *)
+  kc_probe : tid; kc_probe_email : bool;
+  kc_pevs : list event;                              (* the probe's operations *)
+  kc_res : list (tid * (nat * nat));                 (* finished threads of the history: (0,0) error, else (reg, key) *)
+  kc_pres : nat * nat;                               (* result of the probe *)
+  kc_freg : nat; kc_fkey : nat;                      (* files at the end *)
+  kc_created : nat                                   (* accounts registered by newAccount during the case *)
+}.
+
+Definition kres_code (p : kpc) : option (nat * nat) :=
+  match p with
+  | KDone (Some (r, k)) => Some (fn r, fn k)
+  | KDone None => Some (0, 0)
+  | _ => None
+  end.
+
+Definition pair_eqb (a b : nat * nat) : bool := Nat.eqb (fst a) (fst b) && Nat.eqb (snd a) (snd b).
+
+Definition kall_events (c : kcase) : list event :=
+  kc_evs c ++ EStart (kc_probe c) (if kc_probe_email c then 1 else 0) :: kc_pevs c.
+
+Definition kfinal_agree (s : kstate) (c : kcase) : bool :=
+  Nat.eqb (kc_freg c) (fn (k_reg s)) && Nat.eqb (kc_fkey c) (fn (k_key s)) &&
+  forallb (fun '(t, x) => match kres_code (k_thr s t) with Some y => pair_eqb x y | None => false end)
+          (kc_res c) &&
+  match kres_code (k_thr s (kc_probe c)) with Some y => pair_eqb (kc_pres c) y | None => false end &&
+  Nat.eqb (kc_created c) 0.
+
+Definition kinit_of (c : kcase) : kstate := kinit (fv (kc_reg0 c)) (fv (kc_key0 c)) (kc_known c).
+
+Definition kmodel_agrees (c : kcase) : bool :=
+  match kreplay (kinit_of c) (kall_events c) with
+  | Some (s, b) => b && kfinal_agree s c
+  | None => false
+  end.
+
+(** the probe's operations: its own, not faulted *)
+Definition probe_shape (p : tid) (pevs : list event) : bool :=
+  forallb (fun e => match e with EOp t false _ _ _ => Nat.eqb t p | _ => false end) pevs.
+
+Definition is_store (k : nat) : bool := Nat.eqb k k_storereg || Nat.eqb k k_storekey.
+(** an observed Store wrote the configured key / the registration of its account *)
+Definition store_ok (e : event) : bool :=
+  match e with
+  | EOp _ false k _ v => negb (is_store k) || Nat.eqb v 1
+  | _ => true
+  end.
+
+(** the monitor, on the implementation's observations only:
+    (i)   nothing is ever registered in this mode;
+    (ii)  whatever is stored is the configured key / the registration of its account;
+    (iii) (storage did not hold a foreign registration) a call that succeeds returns that account;
+    (iv)  an account that was completely stored is never replaced by a different one;
+    (v)   (no foreign registration, CA knows the key) whatever faults, crashes and interleavings
+          came before, the next call that runs alone succeeds with that account and leaves it
+          completely stored *)
+Definition kspec (c : kcase) : bool :=
+  let clean := kc_reg0 c <? 2 in
+  let good (x : nat * nat) := pair_eqb x (0, 0) || pair_eqb x (1, 1) in
+  Nat.eqb (kc_created c) 0 &&
+  forallb store_ok (kc_evs c ++ kc_pevs c) &&
+  (negb clean || (forallb (fun '(_, x) => good x) (kc_res c) && good (kc_pres c))) &&
+  (negb (Nat.eqb (kc_reg0 c) 1 && Nat.eqb (kc_key0 c) 1) ||
+   (Nat.eqb (kc_fkey c) 1 && negb (Nat.eqb (kc_freg c) 2))) &&
+  (negb (clean && kc_known c && probe_shape (kc_probe c) (kc_pevs c)) ||
+   (pair_eqb (kc_pres c) (1, 1) && Nat.eqb (kc_freg c) 1 && Nat.eqb (kc_fkey c) 1)).
+
 (* ------------------------------------------------------------------ wire *)
 
 Definition get_event : dec event :=
@@ -289,7 +416,8 @@ Inductive case :=
 | CUrl (u : url_case) (obs : option str)
 | CContact (u : url_case) (cs : list (bool * bool))
 | CKeyPem (with_email key_matches reg_ok ca_knows : bool)
-          (obs_ok : bool) (obs_lookups : nat) (obs_saved : bool) (obs_created : nat).
+          (obs_ok : bool) (obs_lookups : nat) (obs_saved : bool) (obs_created : nat)
+| CKp (c : kcase).
 
 Definition get_case : dec case :=
   (kind <- get_nat ;;
@@ -300,6 +428,13 @@ Definition get_case : dec case :=
    | 3 => we <- get_bool ;; km <- get_bool ;; ro <- get_bool ;; ck <- get_bool ;;
           ok <- get_bool ;; lk <- get_nat ;; sv <- get_bool ;; cr <- get_nat ;;
           ret (CKeyPem we km ro ck ok lk sv cr)
+   | 4 => r0 <- get_nat ;; k0 <- get_nat ;; kn <- get_bool ;;
+          evs <- get_list get_event ;;
+          p <- get_nat ;; pe <- get_bool ;; pevs <- get_list get_event ;;
+          res <- get_list (t <- get_nat ;; l <- get_nat ;; k <- get_nat ;; ret (t, (l, k))) ;;
+          pr <- get_nat ;; pk <- get_nat ;;
+          fr <- get_nat ;; fk <- get_nat ;; cr <- get_nat ;;
+          ret (CKp (KCase r0 k0 kn evs p pe pevs res (pr, pk) fr fk cr))
    | _ => fun _ => None
    end).
 
@@ -316,9 +451,9 @@ Definition model_agrees (c : case) : bool :=
          requests are attributed to their case exactly, CONNECTs only by host) *)
       match url_model u with None => negb (existsb fst cs) | Some _ => true end
   | CKeyPem we km ro ck ok lk sv cr =>
-      let '(m_ok, m_lookup, m_saved) := keypem_outcome km ro ck we in
-      Bool.eqb m_ok ok && Bool.eqb m_lookup (negb (Nat.eqb lk 0)) &&
-      Bool.eqb (m_saved || (km && ro)) sv
+      let '(m_ok, m_lookup, m_saved) := keypem_outcome km ro ck in
+      Bool.eqb m_ok ok && Bool.eqb m_lookup (negb (Nat.eqb lk 0)) && Bool.eqb m_saved sv
+  | CKp c => kmodel_agrees c
   end.
 
 Definition spec_ok (c : case) : bool :=
@@ -327,6 +462,7 @@ Definition spec_ok (c : case) : bool :=
   | CUrl u obs => url_spec u obs
   | CContact u cs => contact_spec cs
   | CKeyPem _ _ _ _ _ _ _ cr => Nat.eqb cr 0     (* a configured key never registers an account *)
+  | CKp c => kspec c
   end.
 
 Definition check_line (l : list Z) : Z :=
@@ -348,6 +484,18 @@ Fixpoint first_bad (s : state) (evs : list event) (i : nat) : nat :=
                 | _ => true
                 end in
       if ok then match step s (label_of e) with Some s' => first_bad s' r (S i) | None => i end
+      else i
+  end.
+
+Fixpoint kfirst_bad (s : kstate) (evs : list event) (i : nat) : nat :=
+  match evs with
+  | [] => i
+  | e :: r =>
+      if kev_ok s e
+      then match klabel_of e with
+           | Some l => match kstep s l with Some s' => kfirst_bad s' r (S i) | None => i end
+           | None => i
+           end
       else i
   end.
 
@@ -376,7 +524,26 @@ Definition explain_line (l : list Z) : list Z :=
   | Some (CUrl u _) | Some (CContact u _) =>
       match url_model u with Some d => 1%Z :: put_str d | None => [0%Z] end
   | Some (CKeyPem we km ro ck _ _ _ _) =>
-      let '(a, b, c) := keypem_outcome km ro ck we in
+      let '(a, b, c) := keypem_outcome km ro ck in
       [(if a then 1 else 0)%Z; (if b then 1 else 0)%Z; (if c then 1 else 0)%Z]
+  | Some (CKp c) =>
+      let evs := kall_events c in
+      let i := kfirst_bad (kinit_of c) evs 0 in
+      let st := match kreplay (kinit_of c) (firstn i evs) with Some (s, _) => s | None => kinit_of c end in
+      let exp := match nth_error evs i with
+                 | Some (EOp t fl _ _ _) =>
+                     match kexpected st t fl with
+                     | Some (k, v) => [Z.of_nat k; Z.of_nat v]
+                     | None => [(-1)%Z]
+                     end
+                 | _ => []
+                 end in
+      (Z.of_nat i :: Z.of_nat (length evs) :: exp) ++
+      match kreplay (kinit_of c) evs with
+      | Some (s, b) =>
+          [(if b then 1 else 0)%Z; Z.of_nat (fn (k_reg s)); Z.of_nat (fn (k_key s));
+           (match kres_code (k_thr s (kc_probe c)) with Some (a, b) => Z.of_nat (10 * a + b) | None => (-1)%Z end)]
+      | None => [(-2)%Z]
+      end
   | None => []
   end.
